@@ -1,3 +1,346 @@
 import GnpyModel
-/- Property theorems for C11 (only the property theorems and their non-vacuity examples live here;
-   helper lemmas go to GnpyProofs/Lemmas). -/
+import GnpyProofs.Lemmas.Route
+import GnpyProofs.Lemmas.Disjoint
+import GnpyProofs.Lemmas.Ispart
+/- Property theorems for C11 — every computed route is a real, loop-free, constraint-respecting shortest path.
+   Model: GnpyModel/Route.lean.  networkx is not modelled: the theorems establish that the ORACLE (`bestRoute`,
+   `decideRoute`) and the CHECKER (`checkRoute`) the harness runs against the implementation mean exactly what the
+   property says, for every finite weighted digraph, every source/destination and every include list. -/
+namespace Gnpy.Route
+
+/-- **enumeration is sound**: everything `simplePaths` lists is a loop-free walk from `s` to `t` -/
+theorem simplePaths_sound (g : Graph) (s t : V) (p : List V) (h : p ∈ simplePaths g s t) :
+    IsSimplePath g s t [] p :=
+  pathsFrom_sound g t _ s [] p h
+
+/-- **enumeration is complete**: every loop-free walk from `s` to `t` of a well-formed graph is listed -/
+theorem simplePaths_complete (g : Graph) (hg : g.WF) (s t : V) (p : List V) (h : IsSimplePath g s t [] p) :
+    p ∈ simplePaths g s t :=
+  pathsFrom_complete g t _ s [] p h (simple_length_le g hg p h.2.2.1 h.2.2.2.1)
+
+theorem simplePaths_iff (g : Graph) (hg : g.WF) (s t : V) (p : List V) :
+    p ∈ simplePaths g s t ↔ IsSimplePath g s t [] p :=
+  ⟨simplePaths_sound g s t p, simplePaths_complete g hg s t p⟩
+
+/-- `validPaths` are exactly the routes of the property statement -/
+theorem validPaths_iff (g : Graph) (hg : g.WF) (s t : V) (inc p : List V) :
+    p ∈ validPaths g s t inc ↔ IsRoute g s t inc p := by
+  unfold validPaths IsRoute
+  rw [List.mem_filter, simplePaths_iff g hg, List.isSublist_iff_sublist]
+  unfold IsSimplePath
+  constructor
+  · rintro ⟨⟨h1, h2, h3, h4, _⟩, h5⟩; exact ⟨h1, h2, h3, h4, h5⟩
+  · rintro ⟨h1, h2, h3, h4, h5⟩; exact ⟨⟨h1, h2, h3, h4, by simp⟩, h5⟩
+
+/-- **the checker decides the route predicate**: the Boolean run on the implementation's path is `true` exactly when
+the path starts at the source, ends at the destination, follows existing directed links, visits no element twice and
+crosses the include list in order -/
+theorem checkRoute_iff (g : Graph) (s t : V) (inc p : List V) :
+    checkRoute g s t inc p = true ↔ IsRoute g s t inc p := by
+  unfold checkRoute IsRoute
+  simp only [Bool.and_eq_true, beq_iff_eq, isWalkB_iff, nodupB_iff, List.isSublist_iff_sublist]
+  tauto
+
+/-- **the oracle's answer is a route** -/
+theorem bestRoute_valid (g : Graph) (hg : g.WF) (s t : V) (inc p : List V) (h : bestRoute g s t inc = some p) :
+    IsRoute g s t inc p :=
+  (validPaths_iff g hg s t inc p).1 (argmin_mem _ _ _ h)
+
+/-- **the oracle's answer is lightest**: no route crossing the include list weighs less -/
+theorem bestRoute_minimal (g : Graph) (hg : g.WF) (s t : V) (inc p : List V) (h : bestRoute g s t inc = some p) :
+    ∀ q, IsRoute g s t inc q → pathWeight g p ≤ pathWeight g q :=
+  fun q hq => argmin_le _ _ _ h q ((validPaths_iff g hg s t inc q).2 hq)
+
+/-- **the oracle answers `none` exactly when no route exists** -/
+theorem bestRoute_none_iff (g : Graph) (hg : g.WF) (s t : V) (inc : List V) :
+    bestRoute g s t inc = none ↔ ¬ ∃ q, IsRoute g s t inc q := by
+  unfold bestRoute
+  rw [argmin_none_iff]
+  constructor
+  · rintro h ⟨q, hq⟩
+    have := (validPaths_iff g hg s t inc q).2 hq
+    rw [h] at this; simp at this
+  · intro h
+    apply List.eq_nil_iff_forall_not_mem.2
+    intro q hq
+    exact h ⟨q, (validPaths_iff g hg s t inc q).1 hq⟩
+
+/-- **weight-minimal = length-minimal.**  The code minimises `weight` (fibre metres on fibre edges, 0.01 on every other
+edge).  When every fibre length is a multiple of 1 km, every other edge carries at most one 0.01 unit and paths have
+fewer than 10⁵ hops, a path of minimal weight has minimal total fibre length: the pseudo-weights cannot change which
+fibre length wins.  (The generators respect the hypothesis, so the oracle never demands more than the property.) -/
+theorem weight_min_is_length_min (g : Graph) (hkm : ∀ u v, 1000 ∣ g.len u v) (hps : ∀ u v, g.pseudo u v ≤ 1)
+    (p q : List V) (hq : q.length ≤ 100000) (h : pathWeight g p ≤ pathWeight g q) :
+    pathLen g p ≤ pathLen g q := by
+  rw [pathWeight_eq, pathWeight_eq] at h
+  obtain ⟨a, ha⟩ := pathSum_dvd 1000 g.len hkm p
+  obtain ⟨b, hb⟩ := pathSum_dvd 1000 g.len hkm q
+  have hpq := pathSum_le_length g.pseudo hps q
+  unfold pathLen pathPseudo at *
+  omega
+
+/-- **C11, optimality**: the oracle's route has minimal total fibre length among all routes crossing the include list -/
+theorem bestRoute_min_length (g : Graph) (hg : g.WF) (hkm : ∀ u v, 1000 ∣ g.len u v) (hps : ∀ u v, g.pseudo u v ≤ 1)
+    (hn : g.n < 100000) (s t : V) (inc p : List V) (h : bestRoute g s t inc = some p) :
+    ∀ q, IsRoute g s t inc q → pathLen g p ≤ pathLen g q := by
+  intro q hq
+  have hl := simple_length_le g hg q hq.2.2.1 hq.2.2.2.1
+  exact weight_min_is_length_min g hkm hps p q (by omega) (bestRoute_minimal g hg s t inc p h q hq)
+
+/-- any two routes of minimal weight have the same fibre length: whatever tie-break the library applies, the fibre
+length the harness compares is determined -/
+theorem min_length_unique (g : Graph) (hkm : ∀ u v, 1000 ∣ g.len u v) (hps : ∀ u v, g.pseudo u v ≤ 1)
+    (p q : List V) (hp : p.length ≤ 100000) (hq : q.length ≤ 100000) (h : pathWeight g p = pathWeight g q) :
+    pathLen g p = pathLen g q :=
+  Nat.le_antisymm (weight_min_is_length_min g hkm hps p q hq (Nat.le_of_eq h))
+    (weight_min_is_length_min g hkm hps q p hp (Nat.le_of_eq h.symm))
+
+/-! ### the decision wrapper of `compute_constrained_path` -/
+
+/-- **C11, satisfiable constraint**: when a route crossing the include list exists (and the list is not an explicit
+route), the decision is such a route, of minimal weight -/
+theorem decide_constrained (g : Graph) (hg : g.WF) (s t : V) (inc : List V) (strict : Bool)
+    (hex : ∃ q, IsRoute g s t inc q) :
+    ∃ p, decideRoute g s t inc strict none = .constrained p ∧ IsRoute g s t inc p ∧
+      ∀ q, IsRoute g s t inc q → pathWeight g p ≤ pathWeight g q := by
+  obtain ⟨q, hq⟩ := hex
+  have h0 : bestRoute g s t [] ≠ none := by
+    rw [Ne, bestRoute_none_iff g hg]
+    exact fun h => h ⟨q, hq.1, hq.2.1, hq.2.2.1, hq.2.2.2.1, List.nil_sublist _⟩
+  have h1 : bestRoute g s t inc ≠ none := by
+    rw [Ne, bestRoute_none_iff g hg]; exact fun h => h ⟨q, hq⟩
+  obtain ⟨p0, hp0⟩ := Option.ne_none_iff_exists'.1 h0
+  obtain ⟨p, hp⟩ := Option.ne_none_iff_exists'.1 h1
+  exact ⟨p, by simp [decideRoute, hp0, hp], bestRoute_valid g hg s t inc p hp, bestRoute_minimal g hg s t inc p hp⟩
+
+/-- **C11, STRICT**: a STRICT include list that no route can honour blocks the request with
+`NO_PATH_WITH_CONSTRAINT` (the destination being reachable at all) -/
+theorem decide_strict_blocked (g : Graph) (hg : g.WF) (s t : V) (inc : List V)
+    (hreach : ∃ q, IsRoute g s t [] q) (hno : ¬ ∃ q, IsRoute g s t inc q) :
+    decideRoute g s t inc true none = .noPathWithConstraint := by
+  have h0 : bestRoute g s t [] ≠ none := by rw [Ne, bestRoute_none_iff g hg]; exact fun h => h hreach
+  obtain ⟨p0, hp0⟩ := Option.ne_none_iff_exists'.1 h0
+  have h1 := (bestRoute_none_iff g hg s t inc).2 hno
+  simp [decideRoute, hp0, h1]
+
+/-- **C11, LOOSE**: when only LOOSE hops cannot be honoured they are dropped and the decision is the unconstrained
+shortest path -/
+theorem decide_loose_dropped (g : Graph) (hg : g.WF) (s t : V) (inc : List V)
+    (hreach : ∃ q, IsRoute g s t [] q) (hno : ¬ ∃ q, IsRoute g s t inc q) :
+    ∃ p, decideRoute g s t inc false none = .unconstrained p ∧ IsRoute g s t [] p ∧
+      ∀ q, IsRoute g s t [] q → pathWeight g p ≤ pathWeight g q := by
+  have h0 : bestRoute g s t [] ≠ none := by rw [Ne, bestRoute_none_iff g hg]; exact fun h => h hreach
+  obtain ⟨p0, hp0⟩ := Option.ne_none_iff_exists'.1 h0
+  have h1 := (bestRoute_none_iff g hg s t inc).2 hno
+  exact ⟨p0, by simp [decideRoute, hp0, h1], bestRoute_valid g hg s t [] p0 hp0, bestRoute_minimal g hg s t [] p0 hp0⟩
+
+/-- **C11, unreachable destination**: blocked with `NO_PATH`, whatever the include list -/
+theorem decide_noPath (g : Graph) (hg : g.WF) (s t : V) (inc : List V) (strict : Bool)
+    (hno : ¬ ∃ q, IsRoute g s t [] q) :
+    decideRoute g s t inc strict none = .noPath := by
+  have h0 := (bestRoute_none_iff g hg s t []).2 hno
+  simp [decideRoute, h0]
+
+/-- the decision is total and exclusive: a request is blocked iff no acceptable route exists -/
+theorem decide_blocked_iff (g : Graph) (hg : g.WF) (s t : V) (inc : List V) (strict : Bool) :
+    (decideRoute g s t inc strict none = .noPath ∨ decideRoute g s t inc strict none = .noPathWithConstraint) ↔
+      ((¬ ∃ q, IsRoute g s t [] q) ∨ (strict = true ∧ ¬ ∃ q, IsRoute g s t inc q)) := by
+  by_cases hreach : ∃ q, IsRoute g s t [] q
+  · by_cases hinc : ∃ q, IsRoute g s t inc q
+    · obtain ⟨p, hp, _⟩ := decide_constrained g hg s t inc strict hinc
+      simp [hp, hreach, hinc]
+    · cases strict with
+      | true => simp [decide_strict_blocked g hg s t inc hreach hinc, hinc]
+      | false =>
+        obtain ⟨p, hp, _⟩ := decide_loose_dropped g hg s t inc hreach hinc
+        simp [hp, hreach]
+  · simp [decide_noPath g hg s t inc strict hreach, hreach]
+
+/-! ### the explicit-path shortcut -/
+
+/-- **the shortcut only returns admissible paths**: whatever `explicit_path` (repaired) returns follows existing links,
+visits no element twice and passes the code's own `ispart` test against the whole include list -/
+theorem explicitPath_sound (g : Graph) (omsOf : V → Option Nat) (els : Nat → List V) (sR dR : Option V)
+    (inc : List V) (s t : V) (p : List V) (h : explicitPath g omsOf els sR dR inc s t = some p) :
+    IsWalk g p ∧ p.Nodup ∧ ispart inc p = true := by
+  unfold explicitPath at h
+  split at h
+  · simp at h
+  · split at h
+    · simp only at h
+      split at h
+      · split at h
+        · simp at h
+        · split at h
+          next hcond =>
+            simp only [Option.some.injEq] at h
+            subst h
+            simp only [Bool.and_eq_true] at hcond
+            exact ⟨(isWalkB_iff g _).1 hcond.1, uniqueOrdered_nodup _, hcond.2⟩
+          · simp at h
+      · simp at h
+    · simp at h
+
+/-- **an explicit route is the only route.**  `p` is the route spelled by the include list (the concatenated OMS of
+`explicit_path`).  If every hop `a → b` of `p` is forced — `b` is the only successor of `a` (transceiver → its ROADM, line
+element → next element), or `a` is the only predecessor of `b` and `b` lies on every route crossing the list (first
+element of an OMS named in the list, destination transceiver) — then every route crossing the include list IS `p`.
+Hence the shortcut returns the unique, and therefore the shortest, admissible route. -/
+theorem explicit_path_unique (g : Graph) (s t : V) (inc p q : List V) (hp : IsRoute g s t inc p)
+    (hq : IsRoute g s t inc q) (hf : ForcedChain g (fun b => b ∈ q) p) : q = p := by
+  have hne : p ≠ [] := by intro h; rw [h] at hp; simp [IsRoute] at hp
+  exact forced_path_unique g t p q hq.2.2.1 hq.2.2.2.1 hp.2.2.2.1 (by rw [hp.1, hq.1]) hne hp.2.1 hq.2.1 hf
+
+/-- the element in front of a visited line element is visited too (it is its only predecessor): an include naming any
+element of an OMS puts the first element of that OMS on every admissible route, which is what `explicit_path_unique`
+needs at the ROADM → first-element hops -/
+theorem line_predecessor_on_route (g : Graph) (s t : V) (inc q : List V) (x u : V) (hq : IsRoute g s t inc q)
+    (hx : x ∈ q) (hne : x ≠ s) (hpred : ∀ w, x ∈ g.succ w → w = u) : u ∈ q :=
+  pred_on_walk g q s x u hq.2.2.1 hq.1 hx hne hpred
+
+/-- consequently the explicit route is a shortest one -/
+theorem explicit_path_shortest (g : Graph) (s t : V) (inc p : List V) (hp : IsRoute g s t inc p)
+    (hf : ∀ q, IsRoute g s t inc q → ForcedChain g (fun b => b ∈ q) p) :
+    ∀ q, IsRoute g s t inc q → pathLen g p ≤ pathLen g q := by
+  intro q hq
+  rw [explicit_path_unique g s t inc p q hp hq (hf q hq)]
+
+/-! ### the route-list clean-up (`correct_json_route_list`) -/
+
+/-- **clean-up, accepted lists**: when every unusable entry (unknown name or transceiver) is LOOSE, the clean-up keeps
+exactly the usable entries, in order, with their hop types (source first / destination last silently removed) -/
+theorem clean_ok (isNode isTrx : V → Bool) (s t : V) (route : List (V × Bool)) (hs : isTrx s = true)
+    (ht : isTrx t = true)
+    (hloose : ∀ p ∈ stripEnds s t route, badNode isNode isTrx p.1 = true → p.2 = false) :
+    correctRouteList isNode isTrx s t route =
+      .ok ((stripEnds s t route).filter (fun p => !(badNode isNode isTrx p.1))) := by
+  have := cleanLoop_ok isNode isTrx (stripEnds s t route) [] (by simp) hloose
+  simpa [correctRouteList, hs, ht] using this
+
+/-- **clean-up, STRICT entry that cannot be applied**: the request is refused (`ServiceError`) -/
+theorem clean_strict_error (isNode isTrx : V → Bool) (s t : V) (route : List (V × Bool)) (hs : isTrx s = true)
+    (ht : isTrx t = true)
+    (hbad : ∃ p ∈ stripEnds s t route, badNode isNode isTrx p.1 = true ∧ p.2 = true) :
+    correctRouteList isNode isTrx s t route = .error .strictUnknown := by
+  have := cleanLoop_error isNode isTrx (stripEnds s t route) (stripEnds s t route) hbad
+  simpa [correctRouteList, hs, ht] using this
+
+/-- a list of usable nodes is left untouched, and nothing unusable survives the clean-up -/
+theorem clean_result_usable (isNode isTrx : V → Bool) (s t : V) (route r : List (V × Bool))
+    (h : correctRouteList isNode isTrx s t route = .ok r) :
+    ∀ p ∈ r, isNode p.1 = true ∧ isTrx p.1 = false := by
+  by_cases hs : isTrx s = true
+  · by_cases ht : isTrx t = true
+    · by_cases hbad : ∃ p ∈ stripEnds s t route, badNode isNode isTrx p.1 = true ∧ p.2 = true
+      · rw [clean_strict_error isNode isTrx s t route hs ht hbad] at h; cases h
+      · have hloose : ∀ p ∈ stripEnds s t route, badNode isNode isTrx p.1 = true → p.2 = false := by
+          intro p hp hb
+          by_contra hcon
+          exact hbad ⟨p, hp, hb, by simpa using hcon⟩
+        rw [clean_ok isNode isTrx s t route hs ht hloose] at h
+        injection h with h
+        subst h
+        intro p hp
+        have := (List.mem_filter.1 hp).2
+        simp only [badNode, Bool.not_or, Bool.not_not, Bool.and_eq_true, Bool.not_eq_true'] at this
+        exact this
+    · simp [correctRouteList, hs, ht] at h
+  · simp [correctRouteList, hs] at h
+
+/-! ### `ispart`, the code's "crosses in order" test -/
+
+/-- **`ispart` is the subsequence test**: on lists without repetition (a loop-free path, an include list naming each
+node once) the code's `ispart(a, b)` holds exactly when `a` is a subsequence of `b` — the relation `IsRoute` uses -/
+theorem ispart_iff_sublist (a b : List V) (ha : a.Nodup) (hb : b.Nodup) :
+    ispart a b = true ↔ a.Sublist b := by
+  unfold ispart
+  rw [ispartAux_iff]
+  constructor
+  · rintro ⟨hmem, hch⟩
+    have h1 : List.IsChain (· ≤ ·) (a.map (fun x => b.idxOf x)) := hch.tail
+    have h2 := List.isChain_iff_pairwise.1 h1
+    have h3 : a.Pairwise (fun x y => b.idxOf x ≤ b.idxOf y) := List.pairwise_map.1 h2
+    exact sublist_of_idx_mono b a ha hmem h3
+  · intro hs
+    refine ⟨fun x hx => hs.subset hx, ?_⟩
+    have hp := (pairwise_idx_of_nodup b hb).sublist hs
+    rw [List.isChain_iff_pairwise, List.pairwise_cons]
+    refine ⟨fun y _ => Nat.zero_le y, ?_⟩
+    rw [List.pairwise_map]
+    exact hp.imp (fun h => Nat.le_of_lt h)
+
+/-- the code also accepts an include list that names a node twice in a row, which no loop-free path can cross twice:
+this is where `ispart` and the subsequence relation differ (the generators never repeat a node) -/
+theorem ispart_repeated_node : ispart [1, 1] [0, 1, 2] = true ∧ ¬ [1, 1].Sublist [0, 1, 2] := by decide
+
+/-! ### the reverse path of a bidirectional request -/
+
+/-- **C11, reverse path**: the path rebuilt from the reversed OMS (`find_reversed_path`: reversed OMS of every crossed
+OMS, in reverse order) visits the same sites (ROADMs) in reverse.  `c` is the chain of OMS the forward path crosses,
+`rev` maps an OMS to `oms.reversed_oms` (same two ROADMs, opposite direction). -/
+theorem reverse_sites (rev : Oms → Oms) : ∀ c : List Oms, Adjacent c → RevOk rev c →
+    sitesOf (revChain rev c) = (sitesOf c).reverse
+  | [], _, _ => by simp [revChain, sitesOf]
+  | [o], _, hr => by
+    have := hr o (by simp)
+    simp [revChain, sitesOf, this.1, this.2]
+  | o :: o' :: rest, hc, hr => by
+    have hadj : o.dst = o'.src := (List.isChain_cons_cons.1 hc).1
+    have ih := reverse_sites rev (o' :: rest) (List.isChain_cons_cons.1 hc).2
+      (fun x hx => hr x (List.mem_cons_of_mem _ hx))
+    rw [revChain_cons, sitesOf_append_singleton _ _ (revChain_ne_nil rev _ (by simp)), ih, (hr o (by simp)).2]
+    simp only [sitesOf, List.map_cons, List.reverse_cons, List.append_assoc, List.cons_append, List.nil_append]
+    rw [hadj]
+
+/-- the reversed chain is again a chain of adjacent OMS: the reverse path follows existing links -/
+theorem reverse_adjacent (rev : Oms → Oms) (c : List Oms) (hc : Adjacent c) (hr : RevOk rev c) :
+    Adjacent (revChain rev c) :=
+  adjacent_revChain rev c hc hr
+
+/-! ### non-vacuity: a 4-node diamond 0→1→3, 0→2→3 (fibre 80 km / 50 km + 50 km) -/
+
+def demoG : Graph where
+  n := 4
+  succ := fun u => if u = 0 then [1, 2] else if u = 1 then [3] else if u = 2 then [3] else []
+  len := fun u _ => if u = 1 then 80000 else if u = 2 then 50000 else 0
+  pseudo := fun u _ => if u = 0 then 1 else 0
+
+example : demoG.WF := by
+  intro u v h
+  have hn : demoG.n = 4 := rfl
+  rw [hn]
+  simp only [demoG] at h
+  by_cases h0 : u = 0
+  · subst h0; simp at h; rcases h with rfl | rfl <;> simp
+  · by_cases h1 : u = 1
+    · subst h1; simp at h; subst h; simp
+    · by_cases h2 : u = 2
+      · subst h2; simp at h; subst h; simp
+      · simp [h0, h1, h2] at h
+
+example : simplePaths demoG 0 3 = [[0, 1, 3], [0, 2, 3]] := by decide
+example : bestRoute demoG 0 3 [] = some [0, 2, 3] := by decide
+example : bestRoute demoG 0 3 [1] = some [0, 1, 3] := by decide
+example : bestRoute demoG 0 3 [2, 1] = none := by decide
+example : decideRoute demoG 0 3 [2, 1] true none = .noPathWithConstraint := by decide
+example : decideRoute demoG 0 3 [2, 1] false none = .unconstrained [0, 2, 3] := by decide
+example : decideRoute demoG 3 0 [] false none = .noPath := by decide
+example : checkRoute demoG 0 3 [1] [0, 1, 3] = true ∧ checkRoute demoG 0 3 [1] [0, 2, 3] = false := by decide
+/-- in the diamond the include list [1] spells the route 0-1-3: node 1 has the single predecessor 0 and the single
+successor 3 -/
+example (q : List V) (hq : IsRoute demoG 0 3 [1] q) : q = [0, 1, 3] := by
+  refine explicit_path_unique demoG 0 3 [1] [0, 1, 3] q ((checkRoute_iff demoG 0 3 [1] [0, 1, 3]).1 (by decide)) hq ?_
+  refine ⟨Or.inr ⟨?_, hq.2.2.2.2.subset (by simp)⟩, Or.inl (by simp [demoG]), trivial⟩
+  intro w hw
+  simp only [demoG] at hw
+  by_cases h0 : w = 0
+  · exact h0
+  · by_cases h1 : w = 1
+    · subst h1; simp at hw
+    · by_cases h2 : w = 2
+      · subst h2; simp at hw
+      · simp [h0, h1, h2] at hw
+example : (∀ u v, 1000 ∣ demoG.len u v) ∧ (∀ u v, demoG.pseudo u v ≤ 1) := by
+  constructor <;> intro u v <;> simp only [demoG] <;> split <;> (try split) <;> omega
+
+end Gnpy.Route
